@@ -689,14 +689,20 @@ def rule_r6(prog, res):
     gk = md.methods.get('gen_interface_key')
     k = 0
     for r in walk_no_defs(gk.node):
-        if not (isinstance(r, ast.Return) and isinstance(r.value, ast.Call)
-                and call_name(r.value) == 'format'):
+        if not isinstance(r, ast.Return):
+            continue
+        comp = None
+        if isinstance(r.value, ast.Call) and call_name(r.value) == 'format':
+            comp = list(r.value.args)
+        elif isinstance(r.value, ast.BinOp) and isinstance(
+                r.value.op, ast.Mod) and isinstance(r.value.right, ast.Tuple):
+            comp = list(r.value.right.elts)
+        if comp is None:
             continue
         g = flatten_guards(guards_at(r, stop=gk.node))
         if not any(pol and 'ServiceBaseBase' in unparse(e) for e, pol in g):
             continue
         k += 1
-        comp = r.value.args
         ok = bool(comp) and unparse(comp[0]) == 'cls.__module__'
         where = '%s:%d' % (gk.module.relpath, r.lineno)
         res.ob('R6', where, 'gen_interface_key (services): components %s' %
